@@ -89,7 +89,7 @@ Section Lex.
     lexf (S f) (c :: r) =
     let (ds, rest) := span is_digit (c :: r) in
     match digits_uint ds with
-    | Some u => lcons (TNum (Z.of_N (N.of_uint u))) (lexf f rest)
+    | Some u => num_tail (Z.of_N (N.of_uint u)) rest (lexf f)
     | None => LErr
     end.
   Proof.
@@ -121,16 +121,40 @@ Section Lex.
   Lemma endok_not_digit rest : endok rest = true -> match rest with [] => True | c :: _ => is_digit c = false end.
   Proof. intros H. endcases H; try exact I; reflexivity. Qed.
 
-  Lemma lex_nat f n rest :
-    endok rest = true ->
-    lexf (S f) (dec_N n ++ rest) = lcons (TNum (Z.of_N n)) (lexf f rest).
+  Lemma lex_digits f n rest :
+    match rest with [] => True | c :: _ => is_digit c = false end ->
+    lexf (S f) (dec_N n ++ rest) = num_tail (Z.of_N n) rest (lexf f).
   Proof.
     intros H. destruct (dec_N_head n) as (c & w & E & Hc).
     rewrite E. cbn [app]. rewrite (lex_digit f c (w ++ rest) Hc).
     change (c :: w ++ rest) with ((c :: w) ++ rest). rewrite <- E. unfold dec_N.
-    rewrite (span_app is_digit _ rest (uint_codes_digits _) (endok_not_digit rest H)).
+    rewrite (span_app is_digit _ rest (uint_codes_digits _) H).
     rewrite digits_uint_codes, DecimalN.Unsigned.of_to. reflexivity.
   Qed.
+  Lemma lex_nat f n rest :
+    endok rest = true ->
+    lexf (S f) (dec_N n ++ rest) = lcons (TNum (Z.of_N n)) (lexf f rest).
+  Proof.
+    intros H. rewrite (lex_digits f n rest (endok_not_digit rest H)). endcases H; reflexivity.
+  Qed.
+  (* n.0 / n.5 *)
+  Lemma lex_halves f n (odd : bool) rest :
+    endok rest = true ->
+    lexf (S f) (dec_N n ++ 46%N :: (if odd then 53%N else 48%N) :: rest)
+    = lcons (TFlo (2 * Z.of_N n + (if odd then 1 else 0))) (lexf f rest).
+  Proof.
+    intros H. pose proof (endok_not_digit rest H) as D.
+    rewrite (lex_digits f n (46%N :: _) eq_refl).
+    destruct odd; cbn [num_tail].
+    - destruct rest as [|c3 r3]; [reflexivity|]. rewrite D. reflexivity.
+    - destruct rest as [|c3 r3]; [now rewrite Z.add_0_r|]. rewrite D. now rewrite Z.add_0_r.
+  Qed.
+  Lemma lex_half0 f n rest : endok rest = true ->
+    lexf (S f) (dec_N n ++ 46%N :: 48%N :: rest) = lcons (TFlo (2 * Z.of_N n + 0)) (lexf f rest).
+  Proof. exact (lex_halves f n false rest). Qed.
+  Lemma lex_half5 f n rest : endok rest = true ->
+    lexf (S f) (dec_N n ++ 46%N :: 53%N :: rest) = lcons (TFlo (2 * Z.of_N n + 1)) (lexf f rest).
+  Proof. exact (lex_halves f n true rest). Qed.
 
   (* ---------------- strings *)
   Definition str_body (s : list N) : list N :=
@@ -248,7 +272,11 @@ Section Lex.
 
   (* one step of the lexer per token; two for a negative number *)
   Definition steps (t : tok) : nat :=
-    match t with TNum z => if (z <? 0)%Z then 2 else 1 | _ => 1 end.
+    match t with
+    | TNum z => if (z <? 0)%Z then 2 else 1
+    | TFlo h => if (h <? 0)%Z then 2 else 1
+    | _ => 1
+    end.
 
   Lemma word_text_length t : In t words -> 1 <= length (tok_text t).
   Proof. intros H. destruct (word_text t H) as (c & w & E & _). rewrite E. cbn. lia. Qed.
@@ -261,6 +289,8 @@ Section Lex.
       + destruct (dec_N_head (Z.to_N (- z))) as (c & w & Ec & _). rewrite Ec. cbn. lia.
       + destruct (dec_N_head (Z.to_N z)) as (c & w & Ec & _). rewrite Ec. cbn. lia.
     - split; [|lia]. change (1 <= length (tok_text (TCol c))). apply word_text_length. now apply lexable_word.
+    - unfold dec_halves. destruct (h <? 0)%Z; cbn [app length]; rewrite !app_length; cbn [length];
+        destruct (dec_N_head (Z.to_N (Z.quot (Z.abs h) 2))) as (c & w & Ec & _); rewrite Ec; cbn [length]; lia.
     - split; [|lia]. match goal with x : fname |- _ => destruct x end. cbn. lia.
   Qed.
 
@@ -293,6 +323,25 @@ Section Lex.
         apply Z.ltb_ge in Z0. rewrite Z2N.id by lia. reflexivity.
     - specialize (E eq_refl). now apply lex_str.
     - specialize (E eq_refl). apply lex_word; [now apply lexable_word|assumption].
+    - (* float literals *)
+      specialize (E eq_refl). cbn [tok_text split_num]. unfold dec_halves.
+      pose proof (Z.quot_rem' (Z.abs h) 2) as QR.
+      assert (R : Z.rem (Z.abs h) 2 = 0%Z \/ Z.rem (Z.abs h) 2 = 1%Z).
+      { pose proof (Z.rem_bound_pos (Z.abs h) 2 (Z.abs_nonneg h)). lia. }
+      assert (Qn : (0 <= Z.quot (Z.abs h) 2)%Z) by (apply Z.quot_pos; lia).
+      destruct (h <? 0)%Z eqn:Z0.
+      + cbn [app fold_right]. change (2 + f) with (S (S f)). rewrite lex_minus.
+        destruct R as [R|R]; rewrite R; cbn [Z.eqb]; rewrite <- app_assoc; cbn [app].
+        * rewrite (lex_half0 f _ rest E). rewrite Z2N.id by exact Qn.
+          apply Z.ltb_lt in Z0. f_equal. f_equal. f_equal. lia.
+        * rewrite (lex_half5 f _ rest E). rewrite Z2N.id by exact Qn.
+          apply Z.ltb_lt in Z0. f_equal. f_equal. f_equal. lia.
+      + cbn [app fold_right]. change (1 + f) with (S f).
+        destruct R as [R|R]; rewrite R; cbn [Z.eqb]; rewrite <- app_assoc; cbn [app].
+        * rewrite (lex_half0 f _ rest E). rewrite Z2N.id by exact Qn.
+          apply Z.ltb_ge in Z0. f_equal. f_equal. lia.
+        * rewrite (lex_half5 f _ rest E). rewrite Z2N.id by exact Qn.
+          apply Z.ltb_ge in Z0. f_equal. f_equal. lia.
     - specialize (E eq_refl). apply lex_word; [now apply lexable_word|assumption].
   Qed.
 
